@@ -340,6 +340,32 @@ func (ls *liveSession) Close() {
 	}()
 }
 
+// killRunning kills one machine of the session that has reached the Running state (testsystem's
+// Kill(nil) picks any machine, also one that is still starting: bigmachine then never resolves
+// the start of that machine - m.Wait(Running) does not return - and the executor's startMachines
+// waits for it for ever; that is a hang inside the test system's start-up handshake, not in the
+// code under test). It reports whether a machine was killed.
+func (ls *liveSession) killRunning() bool {
+	if ls.Sys == nil {
+		return false
+	}
+	var cand []*bigmachine.Machine
+	func() {
+		defer func() { recover() }() // Index panics if a machine vanishes concurrently
+		for i, n := 0, ls.Sys.N(); i < n; i++ {
+			if m := ls.Sys.Index(i); m != nil && m.State() == bigmachine.Running {
+				cand = append(cand, m)
+			}
+		}
+	}()
+	for _, m := range cand {
+		if ls.Sys.Kill(m) {
+			return true
+		}
+	}
+	return false
+}
+
 // lossesNotCausedByMonitor tells whether the executor has declared more of this session's
 // machines lost than the monitor killed: the keepalive of a live machine timed out (a starved
 // host). Before a verdict that assumes intact machines is given, the executor gets a moment to
